@@ -385,6 +385,17 @@ def gen_item(rng, tier, ver="3.7"):
         if rng.chance(0.2):
             g["firstlineno"] = rng.choice([0, 0, 1, 2 ** 31 - 2000])  # absolute line numbers 0, or near the C int limit
         item["graft"] = g
+    if rng.chance(0.05):
+        # a loop whose body ends in an if/elif chain: 3.10 compiles an artificial jump back WITHOUT a line number;
+        # with a redundant prefix in front of it, its JSON form carries an override as its only optional key
+        n_elif = rng.randint(1, 3)
+        body = "        if x:\n            k += %d\n" % rng.randint(1, 9)
+        for j in range(n_elif):
+            body += "        elif x is %s:\n            k -= %d\n" % (rng.choice(["None", "k", "xs"]), rng.randint(1, 9))
+        src = "def f(xs, k):\n    for x in xs:\n" + body + ("    while k:\n        if k > 3:\n            k -= 2\n        elif k:\n            k -= 1\n" if rng.chance(0.5) else "") + "    return k\n"
+        item["prog"] = {"kind": "tmpl", "name": "loop-elif", "src": src}
+        item["pick"] = 1  # the function, not the module
+        item["graft"] = {"append": [], "extarg": rng.randint(1, 2 ** 32)}
     if rng.chance(0.25):
         # producer history: the in-memory round trip of docs/usage.md (to_json_data -> from_json_data, no text in
         # between) on the same value BEFORE the document that is sent is made
